@@ -163,11 +163,15 @@ structure Sim where
   log        : Array Report := #[]
   deriving Repr, Inhabited
 
+/-- a limit larger than the core is clamped to the core size (newReportSim) -/
+def clampLimit (l m : UInt64) : UInt64 := if l > m then m else l
+
 /-- `newReportSim`; `none` = the error return. -/
 def Sim.new (c : Config) : Option Sim :=
   if c.validate then
     some { m := c.coreSize, maxProcs := c.processes, maxCycles := c.cycles,
-           readLimit := c.readLimit, writeLimit := c.writeLimit,
+           readLimit := clampLimit c.readLimit c.coreSize,
+           writeLimit := clampLimit c.writeLimit c.coreSize,
            mem := Array.replicate c.coreSize.toNat default,
            legacy := c.mode == .icws88 }
   else none
